@@ -1473,6 +1473,8 @@ class Evaluator:
                         out[k.v] = self.expr(n.value, e2, fr)
                     elif isinstance(k, App) and not contains_unknown(k):
                         out[TermKey(show(k, 10 ** 6))] = self.expr(n.value, e2, fr)     # an opaque object used as a key
+                    elif _tuple_key(k) is not None:
+                        out[_tuple_key(k)] = self.expr(n.value, e2, fr)                 # a tuple of constants
                     else:
                         return Unknown('dict comprehension with symbolic key')
                 return DictV([out])
@@ -1577,8 +1579,11 @@ class Evaluator:
                     return Const(not pos)
             if same(a, b):
                 return Const(pos)
+            if isinstance(a, ExtRef) and isinstance(b, ExtRef) and a.name != b.name \
+                    and all(r_.name.startswith('operator.') and '__' not in r_.name for r_ in (a, b)):
+                return Const(not pos)          # two differently named functions of the operator module are two objects
             if isinstance(b, Const) and b.v is None and isinstance(a, App) and (
-                    a.name in ('copy', 'setitem', 'dict.updated', 'dict.without', 'to') or (
+                    a.name in ('copy', 'setitem', 'dict.updated', 'dict.without', 'to') or a.name in NEVER_NONE or (
                         a.name == 'apply' and a.args and isinstance(a.args[0], App)
                         and a.args[0].name in ('attr:copy', 'attr:deepcopy'))):
                 return Const(not pos)          # the result of copying / updating a mapping is a mapping, never None
@@ -2630,6 +2635,26 @@ def _fold_isinstance(model, v, t):
     return None
 
 
+def _tuple_key(k):
+    """python tuple for a Tup of constants / integers (a dictionary key such as (0, 1)), else None"""
+    if not isinstance(k, Tup) or k.kind not in ('tuple',):
+        return None
+    out = []
+    for i in k.items:
+        if isinstance(i, Const) and isinstance(i.v, (str, int, bool, type(None))):
+            out.append(i.v)
+        elif isinstance(i, sp.Integer):
+            out.append(int(i))
+        else:
+            return None
+    return tuple(out)
+
+
+# standard-library functions whose result is a string / path, never None
+NEVER_NONE = frozenset(('os.path.expanduser', 'os.path.abspath', 'os.path.join', 'os.path.normpath', 'os.path.realpath',
+                        'os.path.basename', 'os.path.dirname', 'os.fspath', 'os.path.expandvars', 'str', 'repr'))
+
+
 def unq(v):
     """A converted quantity x.to(U) used as a quantity is x itself."""
     while isinstance(v, App) and v.name == 'to':
@@ -2818,6 +2843,8 @@ def _index(base, k):
             return v
     if isinstance(base, DictV) and isinstance(k, App) and not contains_unknown(k) and TermKey(show(k, 10 ** 6)) in base.keys():
         return base.get(TermKey(show(k, 10 ** 6)))
+    if isinstance(base, DictV) and isinstance(k, Tup) and _tuple_key(k) is not None and _tuple_key(k) in base.keys():
+        return base.get(_tuple_key(k))
     if isinstance(base, Ite):
         return mk_ite(base.cond, _index(base.a, k), _index(base.b, k))
     if isinstance(k, int):
